@@ -2776,6 +2776,10 @@ class GraphEmbed(Decomposition):
                 rtol=0,
             )
 
+    def merge(self, other):
+        # the embedding of a product of adjacency matrices is not the composition of the embeddings
+        raise MergeFailure("Graph embeddings cannot be merged.")
+
     def _decompose(self, reg, **kwargs):
         cmds = []
 
